@@ -4,6 +4,7 @@ C08 driver: replays a twin-reader history on the model and evaluates the Spec pr
 import Otel.Base.Wire
 import Otel.C08.Oracle
 import Otel.C08.CbErr
+import Otel.C08.ExpoBuckets
 open Otel Otel.Wire Otel.C02 Otel.C08
 
 namespace Otel.C08.Drv
@@ -187,10 +188,71 @@ def extremaOK (insts : List InstCfg) (noMM : List Bool) (cyc : List CycleIn) (ob
        | _ => false)
     | [] => false
 
+/-! ### full bucket vectors of exponential-histogram points (6th field of `X` streams) -/
+
+def parseCounts (s : String) : Option (List Nat) :=
+  if s.isEmpty then some [] else (s.splitOn ".").mapM parseNat
+
+/-- `<scale>@<neg offset>@<neg counts>@<pos offset>@<pos counts>` -/
+def parseXPt (s : String) : Option XB.XPt :=
+  match s.splitOn "@" with
+  | [sc, no, nc, po, pc] => do
+    pure ⟨← parseInt sc, ⟨← parseInt no, ← parseCounts nc⟩, ⟨← parseInt po, ← parseCounts pc⟩⟩
+  | _ => none
+
+/-- the negative / positive totals of a point's main field `a=count/sum/neg.zero.pos` -/
+def parseXMain (q : String) : Option (Nat × Nat × Nat) :=
+  match q.splitOn "=" with
+  | [a, v] =>
+    match v.splitOn "/" with
+    | [_, _, cs] =>
+      match cs.splitOn "." with
+      | [n, _, p] => do pure (← parseNat a, ← parseNat n, ← parseNat p)
+      | _ => none
+    | _ => none
+  | _ => none
+
+/-- the exponential-histogram points of one observed stream (`[]` for other streams); `none` = an `X` stream without a
+well-formed 6th field -/
+def parseXStream (k : Nat) (delta : Bool) (st : String) : Option (List XB.XObs) :=
+  match st.splitOn ":" with
+  | [j, ty, _, pts, _, xb] =>
+    if ty.startsWith "X" then do
+      let j ← parseNat j
+      let ps ← (pts.splitOn ",").mapM parseXMain
+      let xs ← (xb.splitOn ",").mapM parseXPt
+      if ps.length != xs.length then none
+      pure ((ps.zip xs).map fun (px : (Nat × Nat × Nat) × XB.XPt) =>
+        ({ cycle := k, delta := delta, inst := j, attr := px.1.1, pt := px.2, negTot := px.1.2.1, posTot := px.1.2.2 } : XB.XObs))
+    else none
+  | _ :: ty :: _ => if ty.startsWith "X" then none else some []
+  | _ => some []
+
+def parseXRec (rcs : String) : Option (List XB.XObs) :=
+  match rcs.splitOn ";" with
+  | hd :: streams =>
+    (match hd.splitOn ":" with
+     | c :: r :: _ => do
+       let k ← parseNat c
+       let l ← streams.mapM (parseXStream k (r == "D"))
+       pure l.flatten
+     | _ => none)
+  | [] => none
+
+/-- every exponential-histogram point of the observed records with its bucket vectors -/
+def parseXObs (obs : List String) : Option (List XB.XObs) := (obs.mapM parseXRec).map List.flatten
+
+/-- the observed record without the 6th field of its `X` streams (what the model renders) -/
+def stripXB (rcs : String) : String :=
+  ";".intercalate ((rcs.splitOn ";").map fun st => ":".intercalate ((st.splitOn ":").take 5))
+
 def tagIf (b : Bool) (t : String) : List String := if b then [t] else []
 
 def stepLine (_ : Unit) (toks : List String) : Unit × Option Verdict :=
-  let (inp, obs) := splitObs toks
+  let (inp, obsFull) := splitObs toks
+  -- the bucket vectors of exponential-histogram points are judged by `XB.expoBucketsTwin` on the observed line only;
+  -- the model predicts (and `agree` compares) count, sum and the negative / zero / positive totals
+  let obs := obsFull.map stripXB
   match inp with
   | "twin" :: _ :: istr :: sstr :: rest =>
     let r : Option Verdict := do
@@ -198,7 +260,10 @@ def stepLine (_ : Unit) (toks : List String) : Unit × Option Verdict :=
       let is := isx.map (·.1)
       let noMM := isx.map (·.2)
       let slots := parseSlots sstr
-      let groups := splitBar rest
+      -- `by <pos> <kinds>`: the provider has a third reader whose AggregationSelector drops these instrument kinds; what a
+      -- reader's selector drops concerns that reader only (`bystander_reader_has_no_effect`): erased from the history
+      let groups0 := splitBar rest
+      let groups := groups0.filter fun g => g.head? != some "by"
       let xops ← (expandOvl groups).mapM parseXOp
       -- a callback error does not affect the data: the oracle and the theorems speak about the history without the
       -- error script (`callback_error_does_not_affect_data`), the error status is compared separately
@@ -212,7 +277,9 @@ def stepLine (_ : Unit) (toks : List String) : Unit × Option Verdict :=
       | some recsE =>
         let recs := recsE.map (·.1)
         let errsOk := recsE.map (·.2) == xmodel.errs.map (·.2.2)
-        let spec := oracle is slots ops recs && pointsSelfConsistent recs && extremaOK is noMM cyc obs
+        let xobs := parseXObs obsFull
+        let spec := oracle is slots ops recs && pointsSelfConsistent recs && extremaOK is noMM cyc obs &&
+          (match xobs with | some xs => XB.expoBucketsTwin xs | none => false)
         let aggs := is.map mkAgg
         let reported := fun (p : Agg → Bool) => (List.range is.length).any fun j =>
           (match aggs[j]? with | some g => p g | none => false) &&
@@ -229,10 +296,13 @@ def stepLine (_ : Unit) (toks : List String) : Unit × Option Verdict :=
           tagIf (model.cycle > 2) "multi-cycle" ++
           tagIf (xmodel.errs.any (·.2.2)) "callback-error" ++
           tagIf (groups.contains ["ovl"]) "same-reader-overlap" ++
+          tagIf (groups0.any fun g => g.head? == some "by") "bystander-reader-drops-kinds" ++
           tagIf ((istr.splitOn ",").any fun tk => (tk.splitOn "@").length > 1) "several-meters" ++
           tagIf (xops.any fun o => match o with | .cancelAt j => j < is.length | _ => false) "cancel-during-aggregation" ++
           tagIf ((List.range is.length).any fun j => noSumInst is j && model.recs.any fun rc => rc.2.2.any fun st => st.inst == j) "nosum-histogram" ++
           tagIf ((List.range is.length).any fun j => noMM.getD j false && model.recs.any fun rc => rc.2.2.any fun st => st.inst == j && isHistDT st.dt) "nominmax-histogram" ++
+          tagIf ((xobs.getD []).any fun c => !c.delta && (xobs.getD []).any fun d =>
+            d.delta && d.inst == c.inst && d.attr == c.attr && d.cycle ≤ c.cycle && d.pt.scale != c.pt.scale) "expo-buckets-rescaled" ++
           tagIf (model.recs.any fun rc => rc.2.2.any fun st => st.dt == .expo && st.pts.any fun p =>
             match p.val with | .hist _ _ [n, _, ps] => n == 0 || ps == 0 | _ => false) "expo-one-sided"
         -- `agree` also ties the printed form to the structured form the theorems are about: when the implementation's
